@@ -169,6 +169,7 @@ FU = ["multidecoder.decoders.network.find_urls", "multidecoder.decoders.network.
 _add("url_path_hole3", Tmpl(b"http://example.com/", (3, "urlpath"), b"/x"), check_url_parts, timeout=600, funcs=FU)
 _add("url_path_pct", Tmpl(b"http://example.com/a%", (2, "hex"), b"b/.", (1, "urlpath")), check_url_parts, timeout=600, funcs=FU)
 _add("url_userinfo_hole", Tmpl(b"https://u", (2, "userinfo"), b"@example.com/p"), check_url_parts, timeout=600, funcs=FU)
+_add("url_userinfo_escape", Tmpl(b"https://u%", (2, "hex"), b"r:pw@example.com/p"), check_url_parts, timeout=600, funcs=FU)
 _add("url_query_fragment", Tmpl(b"ftp://example.com/p?", (2, "query"), b"#", (1, "query")), check_url_parts, timeout=600, funcs=FU)
 _add("url_scheme_case_port", Tmpl((1, "in_hH"), b"T", (1, "in_tT"), b"p://example.com:", (2, "digit"), b"/"), check_url_parts, timeout=600, funcs=FU)
 _add("url_ip_host", Tmpl(b"http://10.0.", (1, "digit"), b".1/a?b"), check_url_parts, timeout=900, funcs=FU)
